@@ -376,6 +376,18 @@ impl Planted {
                 let a = 2.0 * PI * rng.unit();
                 let r1 = r0 * (0.3 + 0.4 * rng.unit());
                 let d = if rng.chance(1, 2) { r0 + r1 } else { r0 - r1 };
+                if rng.chance(1, 6) {
+                    // two circles of one shared radius variable (equal circles), externally tangent
+                    let center = self.inner_point(cx + 2.0 * r0 * a.cos(), cy + 2.0 * r0 * a.sin());
+                    let c1 = DatumCircle { center, radius: c0.radius };
+                    self.circles.push(c1);
+                    if rng.chance(1, 2) {
+                        self.cons.push(Constraint::CircleTangentToCircle(c0, c1));
+                    } else {
+                        self.cons.push(Constraint::CircleTangentToCircle(c1, c0));
+                    }
+                    return;
+                }
                 let c1 = self.circle(cx + d * a.cos(), cy + d * a.sin(), r1);
                 // either circle may be listed first (the larger one is not always the first argument)
                 if rng.chance(1, 2) {
@@ -416,7 +428,23 @@ impl Planted {
                 self.cons.push(Constraint::ArcLength(a, r * theta));
             }
             "ArcAngleDeg" | "ArcAngleRad" => {
-                let a = self.any_arc(rng);
+                // now and then a half turn exactly (start opposite the end): a natural request whose
+                // requested angle sits on the branch cut of atan2
+                let a = if rng.chance(1, 6) {
+                    let (x, y) = self.rand_xy(rng);
+                    let r = self.scale * (0.3 + rng.unit());
+                    let a0 = 2.0 * PI * rng.unit();
+                    let start = self.inner_point(x + r * a0.cos(), y + r * a0.sin());
+                    let end = self.inner_point(x - r * a0.cos(), y - r * a0.sin());
+                    let center = self.inner_point(x, y);
+                    let arc = DatumCircularArc { center, start, end };
+                    self.arcs.push(arc);
+                    let half = if shape == "ArcAngleDeg" { Angle::from_degrees(180.0) } else { Angle::from_radians(PI) };
+                    self.cons.push(Constraint::ArcAngle(arc, half));
+                    return;
+                } else {
+                    self.any_arc(rng)
+                };
                 let (cx, cy) = self.xy(&a.center);
                 let (sx, sy) = self.xy(&a.start);
                 let (ex, ey) = self.xy(&a.end);
@@ -610,6 +638,35 @@ pub fn gen_pinned_degenerate(rng: &mut Rng) -> System {
     let reqs = cons.into_iter().map(ConstraintRequest::highest_priority).collect();
     let mut sys = System::default_cfg(reqs, guesses, "pinned");
     sys.scale = scale;
+    sys
+}
+
+/// A large planted sketch (dozens of requests, 60+ equations) that is already exact everywhere
+/// except for the variables of ONE request, which sits first or last in the list: exercises
+/// size-dependent paths (chunked loops, buffers sized from a count) whose mistakes only concern a few
+/// rows at the beginning or the end.
+pub fn gen_large_one_off(rng: &mut Rng) -> System {
+    let max_cons = rng.range(40, 110);
+    let mut sys = gen_planted(rng, max_cons, 0.0, &crate::gen_sys::SHAPES);
+    let Some(xs) = sys.planted.clone() else { return sys };
+    if sys.reqs.is_empty() {
+        return sys;
+    }
+    // choose the request that is off, move it to one end of the list
+    let k = rng.below(sys.reqs.len());
+    let r = sys.reqs.remove(k);
+    let ids: Vec<u32> = kcl_ezpz::verif_hooks::nonzeroes(r.constraint()).into_iter().flatten().collect();
+    if rng.chance(1, 2) { sys.reqs.push(r); } else { sys.reqs.insert(0, r); }
+    for g in sys.guesses.iter_mut() {
+        g.1 = xs[g.0 as usize];
+    }
+    let pert = *rng.pick(&[1e-3, 1e-2]);
+    for id in ids {
+        if let Some(g) = sys.guesses.iter_mut().find(|g| g.0 == id) {
+            g.1 += pert * sys.scale * rng.sym();
+        }
+    }
+    sys.class = "large";
     sys
 }
 
